@@ -168,6 +168,7 @@ func main() {
 			collectFields(pkg, files)
 		}
 		collectChanFields(pkg, files)
+		pkgMutableGlobals[pkg] = mutableGlobals(files)
 		for _, f := range files {
 			if strings.HasSuffix(f, "_test.go") {
 				continue
@@ -186,6 +187,44 @@ func main() {
 				die("%v", err)
 			}
 			replace[f] = dst
+		}
+	}
+
+	// (4) every other package of the program: only uses of package-level variables that are
+	// written at run time are routed through the conflict detector (a scratch buffer or an
+	// unsynchronised cache below pub is shared by the goroutines of the fan-out)
+	dirs, _ := filepath.Glob(filepath.Join(*repo, "*"))
+	done := map[string]bool{"ui": true, "pub": true, "splicer": true, "client": true, "jtp": true, "verifrt": true}
+	for _, d := range dirs {
+		pkg := filepath.Base(d)
+		if st, err := os.Stat(d); err != nil || !st.IsDir() || done[pkg] || strings.HasPrefix(pkg, ".") {
+			continue
+		}
+		files, _ := filepath.Glob(filepath.Join(d, "*.go"))
+		sort.Strings(files)
+		mutable := mutableGlobals(files)
+		if len(mutable) == 0 {
+			continue
+		}
+		for _, f := range files {
+			if strings.HasSuffix(f, "_test.go") {
+				continue
+			}
+			src, err := os.ReadFile(f)
+			if err != nil {
+				die("%v", err)
+			}
+			out2, n := instrumentGlobals(pkg, f, src, mutable, true)
+			if n == 0 {
+				continue
+			}
+			dst := filepath.Join(*out, pkg, filepath.Base(f))
+			os.MkdirAll(filepath.Dir(dst), 0o755)
+			if err := os.WriteFile(dst, out2, 0o644); err != nil {
+				die("%v", err)
+			}
+			replace[f] = dst
+			rep.Rewritten = append(rep.Rewritten, fmt.Sprintf("%s/%s: %d uses of run-time-written package variables -> verifrt.RV/WV", pkg, filepath.Base(f), n))
 		}
 	}
 
@@ -266,6 +305,11 @@ func rewrite(pkg, path string, src []byte) ([]byte, bool) {
 	nAcc := 0
 	if accessPkgs[pkg] {
 		src, nAcc = instrumentFieldAccesses(pkg, path, src)
+	}
+	if mg := pkgMutableGlobals[pkg]; len(mg) > 0 {
+		var n int
+		src, n = instrumentGlobals(pkg, path, src, mg, false)
+		nAcc += n
 	}
 	// channel operations -> scheduler-aware helpers (source text, innermost first)
 	nChan := 0
@@ -1245,4 +1289,199 @@ func roleVars(pkg string) map[string]string {
 		}
 	}
 	return roles
+}
+
+// ---------------------------------------------------------------- package-level variables written at run time
+
+var pkgMutableGlobals = map[string]map[string]bool{}
+
+func rootIdent(e ast.Expr) *ast.Ident {
+	for {
+		switch v := e.(type) {
+		case *ast.ParenExpr:
+			e = v.X
+		case *ast.IndexExpr:
+			e = v.X
+		case *ast.SelectorExpr:
+			e = v.X
+		case *ast.StarExpr:
+			e = v.X
+		case *ast.SliceExpr:
+			e = v.X
+		case *ast.Ident:
+			return v
+		default:
+			return nil
+		}
+	}
+}
+
+// topLevelVars: names of the package-level variables declared in a file and their specs.
+func topLevelVars(file *ast.File) map[string]*ast.ValueSpec {
+	out := map[string]*ast.ValueSpec{}
+	for _, d := range file.Decls {
+		gd, ok := d.(*ast.GenDecl)
+		if !ok || gd.Tok != token.VAR {
+			continue
+		}
+		for _, sp := range gd.Specs {
+			vs := sp.(*ast.ValueSpec)
+			for _, n := range vs.Names {
+				if n.Name != "_" {
+					out[n.Name] = vs
+				}
+			}
+		}
+	}
+	return out
+}
+
+// isGlobalUse: the identifier denotes the package-level variable of that name (declared in
+// this file, or unresolved in this file and declared in another file of the package).
+func isGlobalUse(id *ast.Ident, own map[string]*ast.ValueSpec, unresolved map[*ast.Ident]bool) bool {
+	if id.Obj != nil {
+		vs, ok := id.Obj.Decl.(*ast.ValueSpec)
+		return ok && own[id.Name] == vs
+	}
+	return unresolved[id]
+}
+
+// mutableGlobals: package-level variables that some function other than init assigns to
+// (the variable itself, an element or a field of it).
+func mutableGlobals(files []string) map[string]bool {
+	type parsed struct {
+		file *ast.File
+		own  map[string]*ast.ValueSpec
+	}
+	var ps []parsed
+	all := map[string]bool{}
+	for _, f := range files {
+		if strings.HasSuffix(f, "_test.go") {
+			continue
+		}
+		file, err := parser.ParseFile(token.NewFileSet(), f, nil, 0)
+		if err != nil {
+			die("parse %s: %v", f, err)
+		}
+		own := topLevelVars(file)
+		for n := range own {
+			all[n] = true
+		}
+		ps = append(ps, parsed{file, own})
+	}
+	mutable := map[string]bool{}
+	for _, p := range ps {
+		unresolved := map[*ast.Ident]bool{}
+		for _, id := range p.file.Unresolved {
+			if all[id.Name] {
+				unresolved[id] = true
+			}
+		}
+		for _, d := range p.file.Decls {
+			fd, ok := d.(*ast.FuncDecl)
+			if !ok || fd.Body == nil || (fd.Recv == nil && fd.Name.Name == "init") {
+				continue
+			}
+			ast.Inspect(fd.Body, func(n ast.Node) bool {
+				mark := func(e ast.Expr) {
+					if id := rootIdent(e); id != nil && all[id.Name] && isGlobalUse(id, p.own, unresolved) {
+						mutable[id.Name] = true
+					}
+				}
+				switch v := n.(type) {
+				case *ast.AssignStmt:
+					if v.Tok != token.DEFINE {
+						for _, l := range v.Lhs {
+							mark(l)
+						}
+					}
+				case *ast.IncDecStmt:
+					mark(v.X)
+				}
+				return true
+			})
+		}
+	}
+	return mutable
+}
+
+func instrumentGlobals(pkg, path string, src []byte, mutable map[string]bool, addImport bool) ([]byte, int) {
+	fset := token.NewFileSet()
+	file, err := parser.ParseFile(fset, path, src, parser.ParseComments)
+	if err != nil {
+		die("parse %s: %v", path, err)
+	}
+	rel := pkg + "/" + filepath.Base(path)
+	own := topLevelVars(file)
+	unresolved := map[*ast.Ident]bool{}
+	for _, id := range file.Unresolved {
+		if mutable[id.Name] {
+			unresolved[id] = true
+		}
+	}
+	writes := map[*ast.Ident]bool{}
+	ast.Inspect(file, func(n ast.Node) bool {
+		switch v := n.(type) {
+		case *ast.AssignStmt:
+			if v.Tok != token.DEFINE {
+				for _, l := range v.Lhs {
+					if id := rootIdent(l); id != nil {
+						writes[id] = true
+					}
+				}
+			}
+		case *ast.IncDecStmt:
+			if id := rootIdent(v.X); id != nil {
+				writes[id] = true
+			}
+		}
+		return true
+	})
+	type edit struct {
+		from, to int
+		text     string
+	}
+	var edits []edit
+	inFuncs := func(f func(body *ast.BlockStmt)) {
+		for _, d := range file.Decls {
+			if fd, ok := d.(*ast.FuncDecl); ok && fd.Body != nil {
+				f(fd.Body)
+			}
+		}
+	}
+	inFuncs(func(body *ast.BlockStmt) {
+		ast.Inspect(body, func(n ast.Node) bool {
+			id, ok := n.(*ast.Ident)
+			if !ok || !mutable[id.Name] || !isGlobalUse(id, own, unresolved) {
+				return true
+			}
+			fn := "RV"
+			if writes[id] {
+				fn = "WV"
+			}
+			from, to := fset.Position(id.Pos()).Offset, fset.Position(id.End()).Offset
+			site := strconv.Quote(fmt.Sprintf("%s:%d %s", rel, fset.Position(id.Pos()).Line, id.Name))
+			edits = append(edits, edit{from, to, fmt.Sprintf("(*verifrt.%s(&%s, %s))", fn, id.Name, site)})
+			return true
+		})
+	})
+	if len(edits) == 0 {
+		return src, 0
+	}
+	sort.Slice(edits, func(i, j int) bool { return edits[i].from > edits[j].from })
+	out := append([]byte{}, src...)
+	for _, e := range edits {
+		out = append(out[:e.from], append([]byte(e.text), out[e.to:]...)...)
+	}
+	// the file needs the verifrt import: add it after the package clause
+	text := string(out)
+	if addImport && !strings.Contains(text, `"servitor/verifrt"`) {
+		i := strings.Index(text, "\npackage ")
+		if strings.HasPrefix(text, "package ") {
+			i = -1
+		}
+		j := strings.Index(text[i+1:], "\n") + i + 1
+		text = text[:j+1] + "\nimport \"servitor/verifrt\"\n" + text[j+1:]
+	}
+	return []byte(text), len(edits)
 }
